@@ -28,6 +28,7 @@ from typing import TYPE_CHECKING
 from igraph import Vertex
 
 from explorerscript.ssb_converting.decompiler.write_handlers.abstract import AbstractWriteHandler, FallbackToJump
+from explorerscript.ssb_converting.ssb_special_ops import OP_JUMP
 
 if TYPE_CHECKING:
     from explorerscript.ssb_converting.ssb_decompiler import ExplorerScriptSsbDecompiler
@@ -46,7 +47,11 @@ class ForeverBreakWriteHandler(AbstractWriteHandler):
     def write_content(self) -> Vertex | None:
         """Print a break and end"""
         logger.debug("Handling a break_loop; (%s)...", self.start_vertex["op"])
-        self.decompiler.source_map_add_opcode(self.start_vertex["op"].offset)
+        op = self.start_vertex["op"]
+        if op.maybe_root is not None and op.root.op_code.name == OP_JUMP:
+            # (a break that was inserted after an op that is not a jump carries the offset of that op,
+            #  whose statement was already written and mapped)
+            self.decompiler.source_map_add_opcode(op.offset)
         self.decompiler.write_stmnt("break_loop;")
         exits = self.start_vertex.out_edges()
         if len(exits) == 1:
